@@ -51,7 +51,7 @@ def is_exponent(lo: float, hi: float) -> bool:
 def param_values(lo: float, hi: float, default: float, thorough: bool) -> List[float]:
     vals = set()
     if is_exponent(lo, hi):
-        vals |= set([0.1, 0.25, 0.5, 0.75, 0.9, 1.0] if thorough else [0.25, 0.5, 0.8, 1.0])
+        vals |= set([0.0, 0.1, 0.25, 0.5, 0.75, 0.9, 1.0] if thorough else [0.25, 0.5, 0.8, 1.0])
     else:
         mults = [1e-6, 1e-3, 1e-1, 1.0, 1e1, 1e3, 1e6] if thorough else [1e-3, 1.0, 1e3]
         for m in mults:
